@@ -2308,9 +2308,16 @@ int _vnaproperty_yaml_import(vnaproperty_yaml_t *vymlp,
 		value = yaml_document_get_node(document, pair->value);
 		if ((subtree = vnaproperty_set_subtree(rootptr, "%s",
 			    (const char *)key->data.scalar.value)) == NULL) {
-		    _vnaproperty_yaml_error(vymlp, VNAERR_SYSTEM,
-			    "_vnaproperty_set_subtree: %s: %s",
-			    vymlp->vyml_filename, strerror(errno));
+		    if (errno == EINVAL) {
+			_vnaproperty_yaml_error(vymlp, VNAERR_SYNTAX,
+				"%s (line %ld) error: invalid property key",
+				vymlp->vyml_filename,
+				(long)key->start_mark.line + 1);
+		    } else {
+			_vnaproperty_yaml_error(vymlp, VNAERR_SYSTEM,
+				"_vnaproperty_set_subtree: %s: %s",
+				vymlp->vyml_filename, strerror(errno));
+		    }
 		    goto out;
 		}
 		if (_vnaproperty_yaml_import(vymlp, subtree, value) == -1) {
